@@ -207,9 +207,12 @@ func (hc *HashChain) Fill(argb []uint32, quality int, xsize, ysize int, lowEffor
 		chainSlice[size-2] = uint32(hashToFirstIndex[getPixPairHash64(argb[size-2:])])
 	}
 
-	// Decide between parallel and serial second pass.
+	// Decide between the range-partitioned and the serial second pass. The
+	// choice must not depend on GOMAXPROCS: the two passes extend matches to the
+	// left differently, so picking one by worker count would make the output
+	// depend on the number of CPUs. The worker count only splits the range.
 	numWorkers := runtime.GOMAXPROCS(0)
-	if numWorkers > 1 && size > 50000 && !lowEffort {
+	if size > 50000 && !lowEffort {
 		hc.fillParallel(argb, xsize, size, iterMax, winSize, numWorkers)
 	} else {
 		hc.fillSerial(argb, xsize, size, iterMax, lowEffort, winSize)
